@@ -13,6 +13,7 @@ import (
 	"regexp"
 	"strings"
 	"sync"
+	"sync/atomic"
 	"syscall"
 	"time"
 
@@ -27,6 +28,24 @@ import (
 func init() {
 	// the handler logs through slog.Default
 	slog.SetDefault(slog.New(slog.NewTextHandler(io.Discard, &slog.HandlerOptions{Level: slog.LevelError + 10})))
+}
+
+// InfraError marks a failure of the harness's own infrastructure (ports, scratch space): never a violation.
+type InfraError struct{ Err error }
+
+func (e *InfraError) Error() string { return "harness infrastructure: " + e.Err.Error() }
+func (e *InfraError) Unwrap() error { return e.Err }
+
+var loopCounter uint32
+
+// NextLoopAddr rotates through 127.<16+shard>.x.y: thousands of sessions per minute would otherwise exhaust
+// the ephemeral ports of a single address pair with connections in TIME_WAIT.
+func NextLoopAddr() string {
+	si, _ := Shard()
+	n := atomic.AddUint32(&loopCounter, 1)
+	// mix in the pid so that different checks running at the same time spread out as well
+	b1 := 16 + (si+os.Getpid())%200
+	return fmt.Sprintf("127.%d.%d.%d", b1, 1+(n/250)%250, 1+n%250)
 }
 
 // Target is something that speaks the protocol on Addr.
@@ -56,13 +75,25 @@ type InprocOpts struct {
 // StartInprocFs serves the real server+handler over base (wrapped in pkg/fs.FS
 // exactly like cmd/ps3netsrv-go/server.go does).
 func StartInprocFs(base afero.Fs, o InprocOpts) (*Target, error) {
-	network, laddr := "tcp4", "127.0.0.1:0"
+	network, laddr := "tcp4", NextLoopAddr()+":0"
 	if o.network != "" {
 		network, laddr = o.network, o.laddr
 	}
-	ln, err := net.Listen(network, laddr)
+	var ln net.Listener
+	var err error
+	for try := 0; try < 20; try++ {
+		ln, err = net.Listen(network, laddr)
+		if err == nil {
+			break
+		}
+		// ephemeral ports of one address exhausted (TIME_WAIT): move on to the next loopback address
+		if o.network == "" {
+			laddr = NextLoopAddr() + ":0"
+		}
+		time.Sleep(20 * time.Millisecond)
+	}
 	if err != nil {
-		return nil, err
+		return nil, &InfraError{Err: err}
 	}
 	addr := ln.Addr().String()
 	if o.WrapListener != nil {
